@@ -7,6 +7,7 @@ from vf.gen import pick_weighted
 
 ID = "C31"
 THEOREMS = [
+    "C31_is_binary_tied",
     "C31_stat_eq_git", "C31_is_binary_eq_git",
     "C31_lf_write_total", "C31_crlf_write_total",
     "C31_lf_chunk_free", "C31_lf_chunk_free_refuted",
